@@ -1,5 +1,5 @@
 \* Generator C (tlc -simulate, seeded): template from Templates1/2/3 (<= 3 lookups), per slot a rule type,
-\* a lookupflag in {none, 0, IgnoreMarks} and 1..3 distinct rules of FeaSem!Univ.  Depth 20 covers the
+\* a lookupflag in {none, 0, IgnoreMarks, UseMarkFilteringSet @C4/@C5, MarkAttachmentType @C4} and 1..3 distinct rules of FeaSem!Univ.  Depth 20 covers the
 \* longest construction (1 + 3 * 5 steps).
 CONSTANTS Stride = 1 Offset = 0
 INIT InitC
